@@ -13,13 +13,21 @@ def build(parents, order=None):
 
 
 def queries_all(n, pairs=True):
+    """every structural query; the ones hit by recorded findings (leavesUnder, mrca) come last, because
+    the check stops judging a case at its first (known) failure"""
     ops = ["t.valid"]
     for a in range(n):
-        ops += ["t.qn %d" % a, "t.leavesUnder %d" % a, "t.subN %d" % a, "t.subE %d" % a]
+        ops += ["t.qn %d" % a, "t.subN %d" % a, "t.subE %d" % a]
     if pairs:
         for a in range(n):
             for b in range(n):
-                ops += ["t.path %d %d 1" % (a, b), "t.epath %d %d" % (a, b), "t.mrca %d %d" % (a, b)]
+                ops += ["t.path %d %d 1" % (a, b), "t.epath %d %d" % (a, b)]
+    for a in range(n):
+        ops.append("t.leavesUnder %d" % a)
+    if pairs:
+        for a in range(n):
+            for b in range(n):
+                ops.append("t.mrca %d %d" % (a, b))
     return ops
 
 
@@ -52,10 +60,14 @@ def generate(seed, tier):
                 for a in range(n):
                     ops.append("t.qn %d" % a)
                 for a in range(min(n, 4)):
-                    ops += ["t.mrca %d %d" % (a, r), "t.path %d %d 1" % (a, r), "t.epath %d %d" % (r, a)]
+                    ops += ["t.path %d %d 1" % (a, r), "t.epath %d %d" % (r, a)]
+                # a second re-rooting of the still rooted tree, then (recorded finding: unrooted re-rooting) un-root and re-root
+                ops += ["t.rootAt %d" % ((r + 1) % n), "t.valid", "t.qn %d" % r]
+                for a in range(min(n, 4)):
+                    ops.append("t.mrca %d %d" % (a, r))
                 if n >= 3:
                     ops.append("t.mrca 0 1 2")
-                ops += ["t.unRoot 0", "t.valid", "t.rootAt %d" % ((r + 1) % n), "t.valid", "t.qn %d" % r]
+                ops += ["t.unRoot 0", "t.valid", "t.rootAt %d" % r, "t.valid", "t.qn %d" % r]
                 cases.append(["case root%d dir" % k] + ops)
                 k += 1
     # 2. random trees up to 12 nodes with arbitrary labels: queries on random pairs / subsets, re-rootings
